@@ -5,7 +5,11 @@ set -e
 src=/tmp/seed7/$1-out ; dst=/verif/seeded/$1-$2
 mkdir -p "$dst"
 cp "$src/patch.diff" "$dst/patch.diff"
-[ -f "$src/NOTES.md" ] && cp "$src/NOTES.md" "$dst/NOTES.md"
-for f in "$src"/demo-with*.out "$src"/demo-without*.out "$src"/my-with.out "$src"/my-without.out; do [ -f "$f" ] && cp "$f" "$dst/"; done
-if [ -d "$src/demo" ]; then rm -rf "$dst/demo"; mkdir -p "$dst/demo"; (cd "$src/demo" && find . -name target -prune -o -type f -size -200k -print | cpio -pdm "$dst/demo" 2>/dev/null); fi
-du -sh "$dst"
+if [ -f "$src/NOTES.md" ]; then cp "$src/NOTES.md" "$dst/NOTES.md"; fi
+for f in "$src"/demo-with*.out "$src"/demo-without*.out "$src"/my-with.out "$src"/my-without.out; do if [ -f "$f" ]; then cp "$f" "$dst/"; fi; done
+if [ -d "$src/demo" ]; then
+  rm -rf "$dst/demo"; cp -r "$src/demo" "$dst/demo"
+  find "$dst/demo" -type d \( -name target -o -name .git \) -prune -exec rm -rf {} +
+  find "$dst/demo" -type f -size +300k -delete
+fi
+du -sh "$dst"; ls "$dst" "$dst/demo" 2>/dev/null
